@@ -709,6 +709,8 @@ theorem fabCount_le (a : DynAcc) : (fabCount a).toNat ≤ 1 := by
       omega
   · decide
 
+/-- **`get_entry(index, …)` of a new accessor on a dynamic section WITHOUT data**: the count is `fabCount a` (0 or 1),
+    index 0 below it is the fabricated record `tag = DT_NULL, value = 0, str = ""`, every other index is refused -/
 theorem getEntry_nodata (a : DynAcc) (hs : Settled a.sec) (hd : a.sec.data = none) (hc : a.cache = 0) (idx : BitVec 64) :
     a.getEntry idx = .ok ({ a with cache := fabCount a },
       if (fabCount a).toNat ≤ idx.toNat then .invalid else .ok 0 0 []) := by
@@ -864,6 +866,9 @@ theorem entriesNum_str (a : DynAcc) (s0 : SecBuf) (hs : Settled s0) (hd : s0.dat
     simp only [Except.ok.injEq, Prod.mk.injEq] at e
     rw [← e.1]
 
+/-- **a linked string section without data answers like no string section**: `get_entry` of an accessor whose
+    `sections[sh_link]` is settled and data-less returns what the accessor without string section returns (and keeps
+    its string section) -/
 theorem getEntry_str (a : DynAcc) (s0 : SecBuf) (hs : Settled s0) (hd : s0.data = none) (h : a.str = some s0)
     (idx : BitVec 64) :
     a.getEntry idx = putStr (some s0) (DynAcc.getEntry { a with str := none } idx) := by
